@@ -213,3 +213,14 @@ def twin_sequences(pyver):
     seq("docstring-vs-first-const", [("def f():\n    'text'\n", "<twin>"), ("def f():\n    return 'text'\n", "<twin>"), ("def f():\n    'text'\n    return 'text'\n", "<twin>")])
     seq("kwonly-star", [("def f(*a, k=1): return a\n", "<twin>"), ("def f(a, *, k=1): return a\n", "<twin>"), ("def f(a, k=1): return a\n", "<twin>")])
     return seqs
+
+
+def odd_filename_cases(pyver):
+    """The same small program compiled under unusual file names (co_filename is part of every code object)."""
+    src = "def f(a):\n    'doc'\n    return [i for i in a]\nclass C:\n    x = lambda self: 1\n"
+    names = ["", " ", "\u00fc\u00f1\u00ed/\u4e2d.py", "a\nb.py", "x" * 3000, "<stdin>", "C:\\dir\\file.py", "\udc80bad.py", "file\x00name.py" if False else "tab\tname.py",
+             "'quoted'.py", "{\"string\": 1}", "\U0001f600.py"]
+    out = []
+    for i, fn in enumerate(names):
+        out.append({"k": "src", "id": "w4:filename-%d" % i, "text": src, "filename": fn})
+    return out
